@@ -341,7 +341,7 @@ def run_history_c05(ch, tr: Trace) -> None:
 
 WORKLOADS = [
     Workload(
-        name="history", run=run_history_c05, runs={"quick": 5_000, "thorough": 500_000}, chunk=100, run_timeout=60.0,
+        name="history", run=run_history_c05, runs={"quick": 15_000, "thorough": 500_000}, chunk=100, run_timeout=60.0,
         real=["porepy.numerics.ad.EquationSystem: create_variables, remove_variables, _append_dofs, _cluster_dofs_gridwise, dofs_of, identify_dof, projection_to, num_dofs, set_variable_values, get_variable_values, md_variable",
               "pp.meshing.cart_grid md-grids (real Grid/MortarGrid/MixedDimensionalGrid ordering)"],
         stub=["none (reference model: list of live blocks sorted by (grid rank, creation sequence))"],
